@@ -246,6 +246,48 @@ impl Run {
         replay_mode
     }
 
+    /// Re-runs the committed sentinel input of a known finding (known/<id>.json). The KNOWN-FINDING line is
+    /// printed only while the finding is listed *and* the sentinel still reproduces it.
+    pub fn sentinel<C, F>(&mut self, id: &'static str, part: &str, check: F)
+    where
+        C: Debug + Clone + Serialize + DeserializeOwned,
+        F: Fn(&C, &Probe) -> Verdict,
+    {
+        if self.is_replay() || !crate::known::listed(id) {
+            return;
+        }
+        let p = verif_dir().join("known").join(format!("{id}.json"));
+        let Ok(txt) = std::fs::read_to_string(&p) else {
+            self.inconclusive(format!("known finding {id} has no sentinel file {}", p.display()));
+            return;
+        };
+        let v: Value = serde_json::from_str(&txt).unwrap_or(Value::Null);
+        if v.get("part").and_then(Value::as_str) != Some(part) {
+            return;
+        }
+        let Ok(c) = serde_json::from_value::<C>(v.get("case").cloned().unwrap_or(Value::Null)) else {
+            self.inconclusive(format!("sentinel {} does not deserialise", p.display()));
+            return;
+        };
+        let probe = Probe { stats: &self.stats, counting: true, case_key: hash_of(&txt), strict: false };
+        self.stats.evaluations.fetch_add(1, Ordering::Relaxed);
+        probe.class("sentinel");
+        match check(&c, &probe) {
+            Verdict::Known(k) if k == id => {
+                probe.known(id);
+                if let Some(l) = crate::known::line(id, self.prop) {
+                    self.known_lines.push(l);
+                }
+            }
+            Verdict::Pass | Verdict::Unspecified(_) | Verdict::Known(_) => {
+                println!("note: the sentinel of known finding {id} no longer reproduces it (no KNOWN-FINDING line printed)");
+            }
+            Verdict::Fail(reason) | Verdict::FailReduced(reason, _) => {
+                self.violations.push(Violation { part: part.to_string(), reason: format!("sentinel of {id} fails differently: {reason}"), case: v.get("case").cloned().unwrap_or(Value::Null) });
+            }
+        }
+    }
+
     /// proptest-driven part: `cases` random cases split over the workers, each worker with its own
     /// deterministic seed; failures are shrunk as whole values.
     pub fn random<C, M, F>(&mut self, part: &str, cases: u32, mk: M, check: F)
